@@ -45,7 +45,7 @@ pub fn campaigns(p: Prop) -> Vec<Campaign> {
             Campaign { name: "map-faults", engine: MapHist, kinds: &[T, T, T, ND, P], max_ops: 12, cases: (120, 5000), caps: Some(&[0, 1, 2, 3, 4, 5]), fault: true },
             Campaign { name: "set-faults", engine: SetHist, kinds: &[T, T, T, ND, P], max_ops: 12, cases: (80, 3000), caps: Some(&[0, 1, 2, 3, 4, 5]), fault: true },
         ],
-        Prop::C05 => vec![c("map-invariants", MapHist, &[T, T, P, STR, ZK, ZV, ZB, PA], 40, (2000, 100_000)), c("set-invariants", SetHist, &[T, T, P, P, ZK], 40, (1200, 60_000)), cb("map-big", MapHist, &[T, P], 30, (100, 4000)), cb("set-big", SetHist, &[T, P], 30, (60, 2500))],
+        Prop::C05 => vec![Campaign { name: "map-invariants-under-user-panics", engine: MapHist, kinds: &[T, T, P, ND], max_ops: 10, cases: (50, 2000), caps: Some(&[0, 1, 2, 3, 4, 5]), fault: true }, Campaign { name: "set-invariants-under-user-panics", engine: SetHist, kinds: &[T, P, ND], max_ops: 10, cases: (30, 1200), caps: Some(&[0, 1, 2, 3, 4, 5]), fault: true }, c("map-invariants", MapHist, &[T, T, P, STR, ZK, ZV, ZB, PA], 40, (2000, 100_000)), c("set-invariants", SetHist, &[T, T, P, P, ZK], 40, (1200, 60_000)), cb("map-big", MapHist, &[T, P], 30, (100, 4000)), cb("set-big", SetHist, &[T, P], 30, (60, 2500))],
         Prop::C06 => vec![
             c("map-noalloc", MapHist, &[P, P, P, L, ZK, ZV, ND, ZB], 40, (1500, 60_000)),
             c("set-noalloc", SetHist, &[P, P, ND, ZK], 40, (1000, 40_000)),
@@ -55,7 +55,7 @@ pub fn campaigns(p: Prop) -> Vec<Campaign> {
         Prop::C08 => vec![c("set-algebra", SetAlg, &[T, T, P], 28, (1500, 60_000))],
         Prop::C09 => vec![c("map-walks", MapHist, &[T, T, T, P, P, STR, ZK, ZV, ZB], 40, (2000, 80_000)), c("set-walks", SetHist, &[T, T, P, P, ZK], 40, (1000, 40_000)), cb("map-big", MapHist, &[T, P], 24, (80, 3000))],
         Prop::C10 => vec![c("map-consume", MapHist, &[T, T, T, P, P, STR, ZK, ZV, ZB, TG], 40, (2000, 80_000)), c("set-consume", SetHist, &[T, T, P, P, ZK], 40, (1000, 40_000)), cb("map-big", MapHist, &[T, P], 24, (80, 3000))],
-        Prop::C11 => vec![c("entry", MapHist, &[T, T, T, P, P, STR, ZV, ZB, TG], 40, (2500, 120_000)), cb("map-big", MapHist, &[T, P], 30, (80, 3000))],
+        Prop::C11 => vec![Campaign { name: "entry-closures-that-panic", engine: MapHist, kinds: &[T, T, P], max_ops: 8, cases: (40, 1500), caps: Some(&[0, 1, 2, 3, 4, 5]), fault: true }, c("entry", MapHist, &[T, T, T, P, P, STR, ZV, ZB, TG], 40, (2500, 120_000)), cb("map-big", MapHist, &[T, P], 30, (80, 3000))],
         Prop::C12 => vec![c("map-key-identity", MapHist, &[T, T, TG], 40, (2000, 100_000)), c("set-key-identity", SetHist, &[T, T, TG], 40, (1200, 60_000)), cb("map-big", MapHist, &[T], 30, (80, 3000)), cb("set-big", SetHist, &[T], 30, (60, 2500))],
         Prop::C13 => vec![c("disjoint", MapHist, &[T, T, STR, P, PA, PA], 30, (1500, 60_000)), cb("map-big", MapHist, &[T, T, P], 24, (80, 3000))],
         Prop::C14 => vec![c("map-equality", MapEq, &[T, P], 24, (2000, 100_000)), c("set-equality", SetAlg, &[T, P], 24, (1000, 50_000)), c("map-equality-histories", MapHist, &[T, T, P], 30, (600, 30_000)), cb("map-equality-big", MapHist, &[T, P], 24, (100, 4000))],
